@@ -6,7 +6,7 @@ from sim.core import FAILED
 from sim.steps import LineBudget, BudgetExceeded
 
 ID = "C17"
-CASES = {"quick": 260, "thorough": 4500}
+CASES = {"quick": 450, "thorough": 4500}
 RULE = ("seeded reduced-form indexed grammars (<=4 non-terminals, <=2 indices, <=8 rules; several consumption "
         "rules for one (index, non-terminal); recursion through the stack) x ALL nine optim values x a seeded "
         "sample of rule-list permutations (12 quick / 60 thorough; all when <=4 rules) with `random` seeded x "
